@@ -132,11 +132,21 @@ static uint32_t s_exp_k[MAX_LOG], s_exp_v[MAX_LOG], s_act_k[MAX_LOG], s_act_v[MA
 static size_t s_nek, s_nev, s_nak, s_nav;
 static bool s_dead_key_reported;
 
-static char s_key_buf[64];
-static const char *vkey(const char *suffix) {
-    snprintf(s_key_buf, sizeof(s_key_buf), "C18:%s", suffix);
-    return s_key_buf;
-}
+/* mon_violation() counts a repeated key only once per process, so "did this case fail" needs its own counter:
+ * a history whose model is out of step must be stopped, otherwise follow-up alarms with misleading keys appear. */
+static unsigned s_case_viol;
+#define VIOL(key, ...)                                                                                               \
+    do {                                                                                                             \
+        ++s_case_viol;                                                                                               \
+        mon_violation((key), __VA_ARGS__);                                                                           \
+    } while (0)
+#define CHECK(cond, key, ...)                                                                                        \
+    do {                                                                                                             \
+        if (!(cond)) {                                                                                               \
+            VIOL((key), __VA_ARGS__);                                                                                \
+        }                                                                                                            \
+    } while (0)
+
 static char s_kkey_buf[64];
 static const char *kindkey(const char *suffix) {
     snprintf(s_kkey_buf, sizeof(s_kkey_buf), "C18:%s:%s", s_kind_names[s_kind], suffix);
@@ -162,12 +172,12 @@ static struct vobj *vobj_of(const void *p) {
 static struct kobj *cb_key(const void *p, const char *who) {
     struct kobj *k = kobj_of(p);
     if (!k) {
-        mon_violation("C18:callback-bad-pointer", "during %s: %s callback received a pointer that is not a key object", s_op, who);
+        VIOL("C18:callback-bad-pointer", "during %s: %s callback received a pointer that is not a key object", s_op, who);
         return NULL;
     }
     if (k->destroyed && !s_dead_key_reported) {
         s_dead_key_reported = true;
-        mon_violation("C18:destroyed-key-used", "during %s: %s callback received key object #%u (class %u) whose destructor already ran",
+        VIOL("C18:destroyed-key-used", "during %s: %s callback received key object #%u (class %u) whose destructor already ran",
                       s_op, who, k->id, k->cls);
     }
     return k;
@@ -201,12 +211,12 @@ static bool s_eq(const void *a, const void *b) {
 static void s_key_dtor(void *p) {
     struct kobj *k = kobj_of(p);
     if (!k) {
-        mon_violation("C18:destructor-bad-pointer", "during %s: key destructor called with a pointer that is not a key object", s_op);
+        VIOL("C18:destructor-bad-pointer", "during %s: key destructor called with a pointer that is not a key object", s_op);
         return;
     }
     ++k->destroyed;
     if (k->destroyed > 1) {
-        mon_violation("C18:key-destroyed-twice", "during %s: key object #%u (class %u) destroyed %u times", s_op, k->id, k->cls,
+        VIOL("C18:key-destroyed-twice", "during %s: key object #%u (class %u) destroyed %u times", s_op, k->id, k->cls,
                       k->destroyed);
     }
     if (s_nak < MAX_LOG) {
@@ -217,13 +227,13 @@ static void s_key_dtor(void *p) {
 static void s_val_dtor(void *p) {
     struct vobj *v = vobj_of(p);
     if (!v) {
-        mon_violation("C18:destructor-bad-pointer", "during %s: value destructor called with a pointer that is not a value object (%s)",
+        VIOL("C18:destructor-bad-pointer", "during %s: value destructor called with a pointer that is not a value object (%s)",
                       s_op, p ? "non-NULL" : "NULL");
         return;
     }
     ++v->destroyed;
     if (v->destroyed > 1) {
-        mon_violation("C18:value-destroyed-twice", "during %s: value object #%u destroyed %u times", s_op, v->id, v->destroyed);
+        VIOL("C18:value-destroyed-twice", "during %s: value object #%u destroyed %u times", s_op, v->id, v->destroyed);
     }
     if (s_nav < MAX_LOG) {
         s_act_v[s_nav++] = v->id;
@@ -313,7 +323,7 @@ static void verify_destructors(void) {
     if (s_has_kd) {
         for (size_t i = 0; i < s_nek; ++i) {
             if (!in_list(s_act_k, s_nak, s_exp_k[i])) {
-                mon_violation("C18:key-not-destroyed", "after %s: key object #%u (class %u) was displaced but its destructor did not run",
+                VIOL("C18:key-not-destroyed", "after %s: key object #%u (class %u) was displaced but its destructor did not run",
                               s_op, s_exp_k[i], s_k[s_exp_k[i]].cls);
                 break;
             }
@@ -321,32 +331,32 @@ static void verify_destructors(void) {
         for (size_t i = 0; i < s_nak; ++i) {
             if (!in_list(s_exp_k, s_nek, s_act_k[i])) {
                 struct kobj *k = &s_k[s_act_k[i]];
-                mon_violation("C18:key-destroyed-unexpectedly",
+                VIOL("C18:key-destroyed-unexpectedly",
                               "after %s: key destructor ran for object #%u (class %u, %s) which the operation does not displace", s_op,
                               k->id, k->cls, k->state == O_HELD ? "still stored" : k->state == O_PROBE ? "lookup probe" : "not stored");
                 break;
             }
         }
     } else if (s_nak) {
-        mon_violation("C18:key-destroyed-unexpectedly", "after %s: key destructor ran although none was configured", s_op);
+        VIOL("C18:key-destroyed-unexpectedly", "after %s: key destructor ran although none was configured", s_op);
     }
     if (s_has_vd) {
         for (size_t i = 0; i < s_nev; ++i) {
             if (!in_list(s_act_v, s_nav, s_exp_v[i])) {
-                mon_violation("C18:value-not-destroyed", "after %s: value object #%u was displaced but its destructor did not run", s_op,
+                VIOL("C18:value-not-destroyed", "after %s: value object #%u was displaced but its destructor did not run", s_op,
                               s_exp_v[i]);
                 break;
             }
         }
         for (size_t i = 0; i < s_nav; ++i) {
             if (!in_list(s_exp_v, s_nev, s_act_v[i])) {
-                mon_violation("C18:value-destroyed-unexpectedly",
+                VIOL("C18:value-destroyed-unexpectedly",
                               "after %s: value destructor ran for object #%u which the operation does not displace", s_op, s_act_v[i]);
                 break;
             }
         }
     } else if (s_nav) {
-        mon_violation("C18:value-destroyed-unexpectedly", "after %s: value destructor ran although none was configured", s_op);
+        VIOL("C18:value-destroyed-unexpectedly", "after %s: value destructor ran although none was configured", s_op);
     }
 }
 
@@ -413,27 +423,27 @@ static void check_all(void) {
     size_t hcnt = aws_hash_table_get_entry_count(&s_t->table);
 
     if (s_kind != KIND_TABLE) {
-        MON_CHECK(cnt <= s_max && nf <= s_max, kindkey("over-capacity"), "after %s: cache holds %zu entries (list length %zu), max_items %zu",
+        CHECK(cnt <= s_max && nf <= s_max, kindkey("over-capacity"), "after %s: cache holds %zu entries (list length %zu), max_items %zu",
                   s_op, cnt, nf, s_max);
-        MON_CHECK(s_cache->max_items == s_max, "C18:max-items-changed", "after %s: max_items %zu, configured %zu", s_op,
+        CHECK(s_cache->max_items == s_max, "C18:max-items-changed", "after %s: max_items %zu, configured %zu", s_op,
                   s_cache->max_items, s_max);
     }
-    MON_CHECK(cnt == s_n, "C18:element-count", "after %s: element count %zu, reference %zu", s_op, cnt, s_n);
+    CHECK(cnt == s_n, "C18:element-count", "after %s: element count %zu, reference %zu", s_op, cnt, s_n);
     if (nf > MAX_WALK || nb > MAX_WALK) {
-        mon_violation("C18:list-walk", "after %s: iteration list does not terminate within %d nodes", s_op, MAX_WALK);
+        VIOL("C18:list-walk", "after %s: iteration list does not terminate within %d nodes", s_op, MAX_WALK);
         return;
     }
-    MON_CHECK(hcnt == nf, "C18:table-list-count", "after %s: hash table has %zu entries, iteration list has %zu nodes", s_op, hcnt, nf);
-    MON_CHECK(nf == nb, "C18:list-walk", "after %s: forward walk sees %zu nodes, backward walk %zu", s_op, nf, nb);
+    CHECK(hcnt == nf, "C18:table-list-count", "after %s: hash table has %zu entries, iteration list has %zu nodes", s_op, hcnt, nf);
+    CHECK(nf == nb, "C18:list-walk", "after %s: forward walk sees %zu nodes, backward walk %zu", s_op, nf, nb);
     if (nf != s_n) {
-        mon_violation("C18:list-length", "after %s: iteration list has %zu nodes [%s], reference has %zu [%s]", s_op, nf,
+        VIOL("C18:list-length", "after %s: iteration list has %zu nodes [%s], reference has %zu [%s]", s_op, nf,
                       describe_real(fw, nf), s_n, describe_model());
         return;
     }
     for (size_t i = 0; i < nf; ++i) {
         struct aws_linked_hash_table_node *nd = fw[i];
         if (nf == nb && bw[nf - 1 - i] != nd) {
-            mon_violation("C18:list-backward", "after %s: backward walk position %zu is not the node at forward position %zu", s_op,
+            VIOL("C18:list-backward", "after %s: backward walk position %zu is not the node at forward position %zu", s_op,
                           nf - 1 - i, i);
             break;
         }
@@ -443,11 +453,11 @@ static void check_all(void) {
             if (k && k->cls == s_m[i].cls) {
                 key = nd->key != s_m[i].k ? "C18:list-key-pointer" : "C18:list-value";
             }
-            mon_violation(key, "after %s: iteration list [%s] differs from reference [%s] at position %zu", s_op, describe_real(fw, nf),
+            VIOL(key, "after %s: iteration list [%s] differs from reference [%s] at position %zu", s_op, describe_real(fw, nf),
                           describe_model(), i);
             break;
         }
-        MON_CHECK(nd->table == s_t, "C18:node-table", "after %s: node %zu does not point back at its table", s_op, i);
+        CHECK(nd->table == s_t, "C18:node-table", "after %s: node %zu does not point back at its table", s_op, i);
     }
     /* table (key -> node) agrees with the list of nodes */
     bool seen[MAX_WALK + 1];
@@ -464,23 +474,23 @@ static void check_all(void) {
             }
         }
         if (j == nf) {
-            mon_violation("C18:table-node-not-in-list", "after %s: a hash table element's node is not in the iteration list", s_op);
+            VIOL("C18:table-node-not-in-list", "after %s: a hash table element's node is not in the iteration list", s_op);
             break;
         }
         if (seen[j]) {
-            mon_violation("C18:table-node-twice", "after %s: list node %zu is the value of two hash table elements", s_op, j);
+            VIOL("C18:table-node-twice", "after %s: list node %zu is the value of two hash table elements", s_op, j);
             break;
         }
         seen[j] = true;
         if (it.element.key != fw[j]->key) {
             struct kobj *ek = kobj_of(it.element.key);
-            mon_violation("C18:table-key-pointer",
+            VIOL("C18:table-key-pointer",
                           "after %s: hash element for list node %zu (class %u) holds key object #%d%s, the node holds #%u", s_op, j,
                           s_m[j].cls, ek ? (int)ek->id : -1, ek && ek->destroyed ? " (already destroyed)" : "", s_m[j].k->id);
             break;
         }
     }
-    MON_CHECK(hn == nf, "C18:table-list-count", "after %s: hash table iteration yields %zu elements, list has %zu nodes", s_op, hn, nf);
+    CHECK(hn == nf, "C18:table-list-count", "after %s: hash table iteration yields %zu elements, list has %zu nodes", s_op, hn, nf);
 }
 
 /* ------------------------------------------------------------------ operations */
@@ -531,7 +541,7 @@ static void op_put(struct mon_rng *r, uint32_t cls) {
     aws_reset_error();
     int rc = real_put(k, v);
     if (rc != AWS_OP_SUCCESS) {
-        mon_violation("C18:put-failed", "%s returned %d (error %d)", s_op, rc, aws_last_error());
+        VIOL("C18:put-failed", "%s returned %d (error %d)", s_op, rc, aws_last_error());
     }
 
     /* model */
@@ -582,18 +592,18 @@ static void op_put(struct mon_rng *r, uint32_t cls) {
                 }
             }
             if (nf > s_max) {
-                mon_violation(kindkey("over-capacity"), "after %s: cache holds %zu entries [%s], max_items %zu", s_op, nf,
+                VIOL(kindkey("over-capacity"), "after %s: cache holds %zu entries [%s], max_items %zu", s_op, nf,
                               describe_real(fw, nf), s_max);
             }
             if (!new_present) {
-                mon_violation(kindkey("just-inserted-evicted"), "after %s on a full cache (max_items %zu): the new entry is not in the cache [%s]",
+                VIOL(kindkey("just-inserted-evicted"), "after %s on a full cache (max_items %zu): the new entry is not in the cache [%s]",
                               s_op, s_max, describe_real(fw, nf));
             } else if (other_missing >= 0) {
-                mon_violation(kindkey("wrong-victim"),
+                VIOL(kindkey("wrong-victim"),
                               "after %s on a full cache (max_items %zu): policy victim is class %u, but class %d disappeared; cache now [%s]",
                               s_op, s_max, victim_cls, other_missing, describe_real(fw, nf));
             } else if (victim_present && nf <= s_max) {
-                mon_violation(kindkey("wrong-victim"), "after %s on a full cache: policy victim class %u is still present; cache now [%s]",
+                VIOL(kindkey("wrong-victim"), "after %s on a full cache: policy victim class %u is still present; cache now [%s]",
                               s_op, victim_cls, describe_real(fw, nf));
             }
         }
@@ -618,7 +628,7 @@ static void op_find_just_inserted(void) {
     int rc = real_find(s_probe[e->cls], &out);
     if (rc != AWS_OP_SUCCESS || out != (void *)e->v) {
         struct vobj *gv = vobj_of(out);
-        mon_violation(s_kind == KIND_TABLE ? "C18:just-inserted-not-found" : kindkey("just-inserted-not-found"),
+        VIOL(s_kind == KIND_TABLE ? "C18:just-inserted-not-found" : kindkey("just-inserted-not-found"),
                       "%s: rc %d, returned %s value #%d, expected value #%u", s_op, rc, out ? (gv ? "known" : "unknown") : "NULL",
                       gv ? (int)gv->id : -1, e->v->id);
     }
@@ -638,10 +648,10 @@ static void op_find(struct mon_rng *r, uint32_t cls, bool move_to_back) {
     int rc = move_to_back ? aws_linked_hash_table_find_and_move_to_back(s_t, probe, &out) : real_find(probe, &out);
     void *expect = mi >= 0 ? (void *)s_m[mi].v : NULL;
     if (rc != AWS_OP_SUCCESS) {
-        mon_violation("C18:find-failed", "%s returned %d (error %d)", s_op, rc, aws_last_error());
+        VIOL("C18:find-failed", "%s returned %d (error %d)", s_op, rc, aws_last_error());
     } else if (out != expect) {
         struct vobj *gv = vobj_of(out);
-        mon_violation(mi >= 0 ? "C18:find-wrong-value" : "C18:find-absent-not-null", "%s: returned %s value #%d, reference %s #%d", s_op,
+        VIOL(mi >= 0 ? "C18:find-wrong-value" : "C18:find-absent-not-null", "%s: returned %s value #%d, reference %s #%d", s_op,
                       out ? (gv ? "known" : "unknown pointer") : "NULL", gv ? (int)gv->id : -1, mi >= 0 ? "value" : "absent",
                       mi >= 0 ? (int)s_m[mi].v->id : -1);
     }
@@ -666,7 +676,7 @@ static void op_remove(struct mon_rng *r, uint32_t cls) {
     mon_sample(" %s", s_op);
     aws_reset_error();
     int rc = real_remove(probe);
-    MON_CHECK(rc == AWS_OP_SUCCESS, "C18:remove-failed", "%s returned %d (error %d)", s_op, rc, aws_last_error());
+    CHECK(rc == AWS_OP_SUCCESS, "C18:remove-failed", "%s returned %d (error %d)", s_op, rc, aws_last_error());
     if (mi >= 0) {
         model_drop((size_t)mi);
         s_removed_once[cls] = true;
@@ -730,7 +740,7 @@ static void op_use_lru(void) {
     void *expect = s_n ? (void *)s_m[0].v : NULL;
     if (out != expect) {
         struct vobj *gv = vobj_of(out);
-        mon_violation("C18:lru:use-lru-element-value", "%s returned %s value #%d, reference: %s #%d", s_op,
+        VIOL("C18:lru:use-lru-element-value", "%s returned %s value #%d, reference: %s #%d", s_op,
                       out ? (gv ? "known" : "unknown pointer") : "NULL", gv ? (int)gv->id : -1, s_n ? "least recently used value" : "empty",
                       s_n ? (int)s_m[0].v->id : -1);
     }
@@ -752,7 +762,7 @@ static void op_get_mru(void) {
     void *expect = s_n ? (void *)s_m[s_n - 1].v : NULL;
     if (out != expect) {
         struct vobj *gv = vobj_of(out);
-        mon_violation("C18:lru:get-mru-element-value", "%s returned %s value #%d, reference: %s #%d", s_op,
+        VIOL("C18:lru:get-mru-element-value", "%s returned %s value #%d, reference: %s #%d", s_op,
                       out ? (gv ? "known" : "unknown pointer") : "NULL", gv ? (int)gv->id : -1, s_n ? "most recently used value" : "empty",
                       s_n ? (int)s_m[s_n - 1].v->id : -1);
     }
@@ -796,6 +806,7 @@ static void run_case(void) {
 
     s_nk = s_nv = 0;
     s_n = 0;
+    s_case_viol = 0;
     memset(s_removed_once, 0, sizeof(s_removed_once));
     for (uint32_t c = 0; c < s_ncls; ++c) {
         s_probe[c] = new_kobj(c, O_PROBE);
@@ -810,7 +821,7 @@ static void run_case(void) {
     switch (s_kind) {
         case KIND_TABLE:
             if (aws_linked_hash_table_init(&s_tbl, alloc, s_hash, s_eq, kd, vd, init_items)) {
-                mon_violation("C18:init-failed", "aws_linked_hash_table_init(initial_item_count=%zu) failed: error %d", init_items,
+                VIOL("C18:init-failed", "aws_linked_hash_table_init(initial_item_count=%zu) failed: error %d", init_items,
                               aws_last_error());
                 return;
             }
@@ -828,7 +839,7 @@ static void run_case(void) {
     }
     if (s_kind != KIND_TABLE) {
         if (!s_cache) {
-            mon_violation("C18:init-failed", "aws_cache_new_%s(max_items=%zu) returned NULL", s_kind_names[s_kind], s_max);
+            VIOL("C18:init-failed", "aws_cache_new_%s(max_items=%zu) returned NULL", s_kind_names[s_kind], s_max);
             return;
         }
         s_t = &s_cache->table;
@@ -843,7 +854,6 @@ static void run_case(void) {
                s_has_kd, s_has_vd, s_ncls, s_max, s_hmode, init_items, full_alloc ? "full" : "basic");
     check_all();
 
-    uint64_t v0 = mon_violations();
     bool broken = false;
     size_t max_entries = 0;
     for (size_t op = 0; op < nops; ++op) {
@@ -887,7 +897,7 @@ static void run_case(void) {
         }
         verify_destructors();
         check_all();
-        if (was_put && mon_violations() == v0) {
+        if (was_put && !s_case_viol) {
             op_begin();
             op_find_just_inserted();
             verify_destructors();
@@ -896,7 +906,7 @@ static void run_case(void) {
         if (s_n > max_entries) {
             max_entries = s_n;
         }
-        if (mon_violations() != v0) {
+        if (s_case_viol) {
             broken = true; /* the model may be out of step now: stop this history */
             break;
         }
@@ -928,7 +938,7 @@ static void run_case(void) {
     for (size_t i = 0; i < s_nk; ++i) {
         unsigned want = (s_has_kd && s_k[i].state == O_GONE) ? 1u : 0u;
         if (s_k[i].destroyed != want) {
-            mon_violation("C18:final-key-destructor-count", "end of case: key object #%u (class %u, %s) destroyed %u times, expected %u",
+            VIOL("C18:final-key-destructor-count", "end of case: key object #%u (class %u, %s) destroyed %u times, expected %u",
                           s_k[i].id, s_k[i].cls, s_k[i].state == O_PROBE ? "probe" : "stored", s_k[i].destroyed, want);
             break;
         }
@@ -936,16 +946,16 @@ static void run_case(void) {
     for (size_t i = 0; i < s_nv; ++i) {
         unsigned want = s_has_vd ? 1u : 0u;
         if (s_v[i].destroyed != want) {
-            mon_violation("C18:final-value-destructor-count", "end of case: value object #%u destroyed %u times, expected %u", s_v[i].id,
+            VIOL("C18:final-value-destructor-count", "end of case: value object #%u destroyed %u times, expected %u", s_v[i].id,
                           s_v[i].destroyed, want);
             break;
         }
     }
     struct mon_alloc_stats st1;
     mon_guard_stats(&st1);
-    MON_CHECK(st1.live_blocks == st0.live_blocks, "C18:leak", "allocator imbalance after %s: %lld live blocks (%lld bytes)", s_op,
+    CHECK(st1.live_blocks == st0.live_blocks, "C18:leak", "allocator imbalance after %s: %lld live blocks (%lld bytes)", s_op,
               (long long)(st1.live_blocks - st0.live_blocks), (long long)(st1.live_bytes - st0.live_bytes));
-    MON_CHECK(st1.redzone_errors == st0.redzone_errors, "C18:redzone", "red zone of a library allocation damaged during the case");
+    CHECK(st1.redzone_errors == st0.redzone_errors, "C18:redzone", "red zone of a library allocation damaged during the case");
 }
 
 int main(int argc, char **argv) {
